@@ -1,3 +1,5 @@
-//! verif harness entry for sequencer_app (compiled into the repo crate under cfg(all(test, feature = "verif"))).
-#[test]
-fn smoke() {}
+//! verif harness modules compiled into `astria_sequencer::app` (under cfg(all(test, feature = "verif"))).
+#![allow(clippy::all, clippy::pedantic, dead_code, unused_imports)]
+#[path = "/verif/harness/common/io.rs"]
+mod io;
+mod ledger;
